@@ -25,7 +25,7 @@ import (
 )
 
 var c02mix = []weighted{
-	{"pub", 34}, {"sleep", 16}, {"crash", 8}, {"crashfs", 6}, {"restart", 12}, {"cut", 10}, {"heal", 8}, {"stall", 4}, {"stalll", 3}, {"lagrepl", 3},
+	{"pub", 34}, {"sleep", 16}, {"crash", 8}, {"crashfs", 6}, {"restart", 12}, {"cut", 10}, {"heal", 8}, {"stall", 4}, {"stalll", 3}, {"lagrepl", 3}, {"metalag", 4},
 }
 
 // c02Chain builds a failover chain: a follower lags behind while the leadership moves on, catches up
@@ -59,6 +59,9 @@ func c02Chain(r *simrt.Rand, p *hx.Program) {
 		}
 		pubs(1 + r.Intn(2))
 		sleep(3 + r.Intn(2)) // long: the lagging follower leaves the ISR
+		if r.Pct(30) {
+			add("metalag") // a follower hears of the coming leader change seconds late
+		}
 		switch v := r.Intn(100); {
 		case v < 25:
 			// a slow leader: stalled for about the time its followers need to give up on it
@@ -132,6 +135,9 @@ func c02PingPong(r *simrt.Rand, p *hx.Program) {
 	rounds := 3 + r.Intn(4)
 	for i := 0; i < rounds; i++ {
 		crashed := false
+		if r.Pct(25) {
+			add("metalag")
+		}
 		switch v := r.Intn(100); {
 		case v < 60:
 			add("isolate")
@@ -162,6 +168,59 @@ func c02PingPong(r *simrt.Rand, p *hx.Program) {
 	pubs(1)
 }
 
+// c02Stale: the leader dies while its followers hold different amounts of its last messages (one of them
+// missed a beat), and the metadata reach one follower late, so that for a while it keeps fetching from and
+// reporting to "its" leader on the subjects the new leader already serves. Publishes follow at once.
+func c02Stale(r *simrt.Rand, p *hx.Program) {
+	a := func() []int64 {
+		return []int64{int64(r.Intn(12)), int64(r.Intn(12)), int64(r.Intn(90)), int64(r.Intn(12))}
+	}
+	add := func(k string) { p.Ops = append(p.Ops, hx.Op{K: k, A: a()}) }
+	sleep := func(i int) { p.Ops = append(p.Ops, hx.Op{K: "sleep", A: []int64{int64(i)}}) }
+	p.Ops = nil
+	add("pub")
+	sleep(2)
+	rounds := 1 + r.Intn(3)
+	for i := 0; i < rounds; i++ {
+		if r.Pct(80) {
+			add("stallf")
+		}
+		if r.Pct(80) {
+			add("metalag")
+		}
+		for k := 1 + r.Intn(3); k > 0; k-- {
+			add("pub")
+		}
+		if r.Pct(70) {
+			sleep(r.Intn(2))
+		}
+		switch v := r.Intn(100); {
+		case v < 60:
+			add("crashl")
+		case v < 85:
+			add("isolate")
+		default:
+			p.Ops = append(p.Ops, hx.Op{K: "stalll", A: []int64{int64(4 + r.Intn(8)), int64(r.Intn(12))}})
+		}
+		sleep(3 + r.Intn(2)) // failover
+		for k := 1 + r.Intn(3); k > 0; k-- {
+			add("pub")
+			if r.Pct(30) {
+				sleep(r.Intn(2))
+			}
+		}
+		sleep(r.Intn(3))
+		if r.Pct(40) {
+			add("crashl") // the new leader goes as well: who holds what it acknowledged?
+			sleep(3 + r.Intn(2))
+		}
+		add("heal")
+		add("restartall")
+		sleep(3 + r.Intn(2))
+	}
+	add("pub")
+}
+
 func genC02(r *simrt.Rand, tier string, idx int) *hx.Program {
 	p := clusterGen(r, tier, c02mix)
 	if r.Pct(12) {
@@ -170,6 +229,15 @@ func genC02(r *simrt.Rand, tier string, idx int) *hx.Program {
 		p.P["lag_ms"] = []int64{1000, 2500}[r.Intn(2)]
 		p.P["leader_timeout_ms"] = []int64{1500, 3000}[r.Intn(2)]
 		c02PingPong(r, p)
+		return p
+	}
+	if r.Pct(12) {
+		p.P["nodes"], p.P["rf"] = 3+int64(r.Intn(2)), 3
+		p.P["minisr"] = int64(1 + r.Intn(2))
+		p.P["drop"], p.P["delay"] = 0, 0
+		p.P["lag_ms"] = []int64{1000, 2500, 5000}[r.Intn(3)]
+		p.P["leader_timeout_ms"] = []int64{1500, 3000}[r.Intn(2)]
+		c02Stale(r, p)
 		return p
 	}
 	if r.Pct(40) {
